@@ -1,2 +1,5 @@
-import AlgoVerif.Common
-/-! # C02 — property theorems (none yet) -/
+import AlgoVerif.Model.C02Run
+/-! # C02 — property theorems (under construction) -/
+open AlgoVerif AlgoVerif.C02
+
+theorem C02_placeholder : isPrime 31 = true := by decide
